@@ -16,7 +16,7 @@ CHECKS = {
 
 CHECKS["C05"] = ("model_checking",
     "explicit-state BFS over storage-operation histories on the real backends vs a plain-dictionary reference, whole-state probe per canonical state",
-    "All operation histories up to the stated depth over an alphabet with prefix-related names/versions, small/large/oversize/None/exception values, key overrides and metadata are executed on memory, filesystem and filesystem+cache backends; every answer is compared with a dictionary, and every distinct canonical state (file tree + cache + model) is additionally compared as a whole through a fresh cache-less view, including that nothing superseded or forgotten is cache-resident.",
+    "All operation histories up to the stated depth over an alphabet with prefix-related names/versions, small/large/oversize/None/exception values, weak-referenceable results the caller keeps holding (fitting and oversize), key overrides and metadata are executed on memory, filesystem and filesystem+cache backends; every answer is compared with a dictionary, and every distinct canonical state (file tree + cache + model) is additionally compared as a whole through a fresh cache-less view, including that nothing superseded or forgotten is cache-resident.",
     "Depth-bounded (quick 3-5, thorough 4-6 operations); values are tagged strings so staleness is observable; metadata stored with a superseded data object is treated as undefined.",
     "DESIGN.md §3 C05")
 CHECKS["C07"] = ("model_checking",
@@ -32,26 +32,26 @@ CHECKS["C19"] = ("model_checking",
     "DESIGN.md §3 C19")
 
 CHECKS["C08"] = ("fault_enumeration",
-    "exhaustive fault enumeration: every mutating file-system op of each scenario x every fault kind (real process death / injected I/O error), recovery in a fresh process; thorough: every second fault during recovery",
-    "For 9 memoization scenarios (string, dedup across functions, key override, partition, exception, forget+recall, custom metadata, two arguments, None + shared partition blob) with and without memory cache, the fault-free op log is recorded and every (op, fault kind) pair is executed: crash before, crash leaving an empty file, crash leaving half the bytes, error on open/mkdir/unlink, ENOSPC mid-write. After restart in a fresh process every call must return the correct value, raise nothing and stop recomputing after one successful write; callers of a surviving process must not see the error.",
+    "exhaustive fault enumeration: every mutating file-system op and every read-open of each scenario x every fault kind (real process death / injected I/O error), recovery in a fresh process; thorough: every second fault during recovery",
+    "For 10 memoization scenarios (string, dedup across functions, key override, partition, exception, forget+recall, custom metadata, two arguments, None + shared partition blob, result larger than the memory cache) with and without memory cache, the fault-free op log (every mutating op and every file opened for reading while memoizing) is recorded and every (op, fault kind) pair is executed: crash before, crash leaving an empty file, crash leaving half the bytes, error on open (write or read)/mkdir/unlink, ENOSPC mid-write. Callers of a process that survives a reported error must not see it, and that process keeps calling (three more calls of everything: correct values, no exception, at most one recomputation); after restart in a fresh process every call must return the correct value, raise nothing and stop recomputing after one successful write.",
     "Faults are process death and reported errors at the calls the library issues (audit cross-check makes un-intercepted mutations a harness error); no reordering of completed writes by the OS.",
     "DESIGN.md §3 C08")
 
 CHECKS["C09"] = ("model_checking",
     "stateless model checking of real threads under a controlled scheduler (sys.settrace baton + scheduler-aware library locks), iterative preemption bounding",
-    "Every schedule with at most 1 preemption (quick; 2 thorough) of 2-3 threads calling memoized functions is executed on the real runner/storage/cache code for {cold, warm store, warm cache} x {same key, different keys} x 4 backends, with scheduling points at every line of the runner, call-stack, storage and cache code and at every library lock acquisition; additionally every schedule with at most 2 (thorough 3) preemptions at runner granularity (line points in the runner, call points in storage) for the cold-store scenarios. Per execution: values, no escaped exception, exactly one body run per un-memoized call, no deadlock/livelock, cache accounting consistent and final cache equal to a sequential outcome.",
+    "Every schedule with at most 1 preemption (quick; 2 thorough) of 2-3 threads calling memoized functions is executed on the real runner/storage/cache code for {cold, warm store, warm cache} x {same key, different keys} x 4 backends, plus automatically versioned functions (two unrelated functions; two callers whose nested call trees share a sub-tree, cold and warm), with scheduling points at every line of the runner, call-stack, storage and cache code and at every library lock acquisition; additionally every schedule with at most 2 (thorough 3) preemptions at runner granularity (line points in the runner, call points in storage) for the cold-store scenarios. Per execution: values, no escaped exception, exactly one body run per un-memoized call, no deadlock/livelock, cache accounting consistent and final cache equal to a sequential outcome.",
     "Switches happen only at line boundaries of the traced files and at lock acquisitions (thorough adds opcode-level points in MemoryCache); pure string/path helpers are atomic; no Python race detector exists in the image; schedules beyond the preemption bound are not explored.",
     "DESIGN.md §3 C09")
 
 CHECKS["C01"] = ("model_checking",
     "exhaustive enumeration of edit histories over generated programs, each edition executed on the real library in fresh or long-lived processes, differential oracle = un-decorated rendering of the current edition",
-    "18 program skeletons (root -> dependency chains over memento / explicit-version / plain functions through bare, module.attr, alias, decorator-wrapper and nested-call references; globals of 7 types, class constants, dotted-head bindings, late definitions, hidden dynamic edges) x every edit site x every edit sequence up to length 1 (quick) / 2 (thorough) x delivery cross-process / in-process re-exec+rebind / in-process reload. After every edit every auto-versioned function is called with an explicit argument and with its defaults (hidden-edge programs also through force_local / partial / with_context_args clones); the result must equal the un-memoized run of the current edition or be UndeclaredDependencyError.",
+    "19 program skeletons (root -> dependency chains over memento / explicit-version / plain functions through bare, module.attr, alias, decorator-wrapper and nested-call references; globals of 7 types, class constants, dotted-head bindings, late definitions, hidden dynamic edges, memento callees in a second package) x every edit site x every edit sequence up to length 1 (quick) / 2 (thorough) x delivery cross-process / in-process re-exec+rebind / in-process reload. After every edit every auto-versioned function is called with an explicit argument and with its defaults (hidden-edge programs also through force_local / partial / with_context_args clones); the result must equal the un-memoized run of the current edition or be UndeclaredDependencyError.",
     "Programs come from a fixed skeleton family, not arbitrary Python; explicit-version functions are edited only together with a version bump (of every explicit function reaching the edit); unsupported variable types and helpers in other packages are outside the statement.",
     "DESIGN.md §3 C01")
 
 CHECKS["C03"] = ("model_checking",
     "exhaustive enumeration of (program x hash seed x definition-order permutation x import order x first-query-order permutation) configurations, each executed in a real interpreter started with that PYTHONHASHSEED",
-    "For the C01 program skeletons plus constant-heavy, same-leaf-in-two-namespaces and in-place-fill programs: one fresh interpreter per seed (quick 9, thorough 33 seeds) imports every program under every permutation of the definition order of its functions and module-level statements, both import orders, and queries versions in every order; each function must have exactly one version over the whole matrix. Then a second process with a different seed and reversed definition order re-runs all roots on the store the first filled: zero function bodies, equal values.",
+    "For the C01 program skeletons plus constant-heavy, same-leaf-in-two-namespaces, in-place-fill and cross-package (memento and plain functions of a second package referenced from the root and through a helper) programs: one fresh interpreter per seed (quick 9, thorough 33 seeds) imports every program under every permutation of the definition order of its functions and module-level statements, both import orders, and queries versions in every order; each function must have exactly one version over the whole matrix. Then a second process with a different seed and reversed definition order re-runs all roots on the store the first filled: zero function bodies, equal values.",
     "Hash seeds are a finite stated subset of 2^32 (the run fails as vacuous unless at least two distinct set iteration orders were exercised); programs come from the skeleton family.",
     "DESIGN.md §3 C03")
 
@@ -92,8 +92,8 @@ CHECKS["C15"] = ("model_checking",
     "DESIGN.md §3 C15")
 
 CHECKS["C10"] = ("model_checking",
-    "bounded-exhaustive enumeration of call trees x pre-memoized subsets x invocation modes x backends on the real runner; oracle = provenance record folded from the call tree",
-    "Root plans are all action sequences up to length 2 (quick) / 3 (thorough) over 17 actions (single call, repeated call, batch with a duplicate, failing sub-call caught or uncaught, resource handle, sub-plans to depth 3 over four automatically versioned functions); for every subset of the first 4 (6) distinct sub-invocations memoized beforehand and for single / batch-of-one / batch-of-two invocation on memory, filesystem and filesystem+cache backends, the recorded invocations (order and argument hashes), resources, dependency set and result type of the root AND of every intermediate call must equal the prediction from the tree.",
+    "bounded-exhaustive enumeration of call trees x pre-memoized subsets x invocation modes x backends on the real runner, plus stateless exploration of all schedules (preemption-bounded) of two threads with overlapping call trees; oracle = provenance record folded from the call tree",
+    "Root plans are all action sequences up to length 2 (quick) / 3 (thorough) over 17 actions (single call, repeated call, batch with a duplicate, failing sub-call caught or uncaught, resource handle, sub-plans to depth 3 over four automatically versioned functions); for every subset of the first 4 (6) distinct sub-invocations memoized beforehand and for single / batch-of-one / batch-of-two invocation on memory, filesystem and filesystem+cache backends, the recorded invocations (order and argument hashes), resources, dependency set and result type of the root AND of every intermediate call must equal the prediction from the tree. Concurrent part: two threads whose call trees share a sub-tree (so that a sub-call is found in the store only after the caller's pre-check missed it), every schedule with at most 1 preemption at line granularity (thorough: 2 at runner granularity) under the controlled scheduler of C09; after each execution the record of every call in both trees is compared with the static call tree.",
     "The functions interpret a plan argument, so all nodes share one static closure; only the local runner.",
     "DESIGN.md §3 C10")
 
